@@ -214,6 +214,109 @@ def shadow_formula(env, rnd):
     return rnd.choice(opts)
 
 
+# ---- SORT-SHAPE family: a user sort S as the ONLY occurrence, at depth 0..3 under every combination of
+#      Array index / Array element / parametric-sort argument, carried by a symbol, a function parameter,
+#      a function result, a binder, the index sort of a constant array, the element of a constant array.
+SORT_WRAPS = ("idx", "elt", "par")
+SORT_CARRIERS = ("sym", "funparam", "funres", "binder", "avidx", "avelt")
+
+
+def sort_chains(max_depth):
+    import itertools
+    for d in range(max_depth + 1):
+        for ch in itertools.product(SORT_WRAPS, repeat=d):
+            yield ch
+
+
+def sort_shape_formula(env, chain, carrier):
+    """chain: wrappers applied to S from the inside out, e.g. ("elt", "elt") = Array Int (Array Int S)."""
+    m, tm = env.formula_manager, env.type_manager
+    t = tm.Type("S", 0)
+    Pd = tm.Type("P", 1)
+    for w in chain:
+        if w == "idx":
+            t = ArrayType(t, INT)
+        elif w == "elt":
+            t = ArrayType(INT, t)
+        else:
+            t = tm.get_type_instance(Pd, t)
+    if carrier == "sym":
+        x, y = m.Symbol("x", t), m.Symbol("y", t)
+        if t.is_array_type() and t.elem_type.is_array_type() and t.index_type.is_int_type() and t.elem_type.index_type.is_int_type():
+            i, j = m.Symbol("i", INT), m.Symbol("j", INT)        # a[i][j] = a[j][i]
+            return m.Equals(m.Select(m.Select(x, i), j), m.Select(m.Select(x, j), i))
+        return m.Equals(x, y)
+    if carrier == "funparam":
+        f = m.Symbol("f", FunctionType(BOOL, [INT, t]))
+        return m.Function(f, [m.Int(1), m.Symbol("x", t)])
+    if carrier == "funres":
+        g = m.Symbol("g", FunctionType(t, [INT]))
+        return m.Equals(m.Function(g, [m.Int(1)]), m.Function(g, [m.Int(2)]))
+    if carrier == "binder":
+        x, y = m.Symbol("x", t), m.Symbol("y", t)
+        return m.ForAll([x], m.Exists([y], m.Equals(x, y)))
+    if carrier == "avidx":
+        return m.Equals(m.Array(t, m.Int(0)), m.Array(t, m.Symbol("k", INT)))
+    if carrier == "avelt":
+        return m.Equals(m.Array(INT, m.Symbol("x", t)), m.Array(INT, m.Symbol("y", t)))
+    raise ValueError(carrier)
+
+
+def sort_shape_cases(max_depth):
+    for ch in sort_chains(max_depth):
+        for c in SORT_CARRIERS:
+            env = Environment()
+            push_env(env)
+            yield env, sort_shape_formula(env, ch, c), "sortshape"
+
+
+# ---- DAG-NAMES family: binder names .def_0 .. .def_J (every let index the outer printer can reach), a compound
+#      shared sub-term that does not mention the binder occurring outside the quantifier and inside its body,
+#      both visit orders, K outer lets before the shared one; purely Boolean / small BV, so ALL interpretations
+#      are evaluated.
+def dag_names_formula(env, j, k, order, exists, shape, extra=0):
+    m = env.formula_manager
+    a, b, c, d = [m.Symbol(n, BOOL) for n in "abcd"]
+    pres = [m.And(c, d), m.Not(c), m.Or(c, m.Not(d)), m.Iff(c, d), m.Implies(d, c)][:k]
+    if shape == 0:
+        shared = m.Or(a, b)
+    elif shape == 1:
+        shared = m.Iff(a, m.Not(b))
+    else:
+        u = m.Symbol("u", BVType(2))
+        shared = m.BVULT(m.BVAdd(u, m.BV(1, 2)), u)
+    v = m.Symbol(".def_%d" % j, BOOL)
+    body = m.Or(v, shared) if shape != 1 else m.And(m.Implies(v, shared), m.Or(m.Not(shared), v))
+    if extra == 1:       # a second binder, another let-name look-alike
+        w = m.Symbol(".def_%d" % ((j + 1) % 7), BOOL)
+        q = (m.Exists if exists else m.ForAll)([v, w], m.Or(body, m.And(w, shared)))
+    elif extra == 2:     # nested quantifier re-binding the name
+        inner = (m.ForAll if exists else m.Exists)([v], m.Iff(v, shared))
+        q = (m.Exists if exists else m.ForAll)([v], m.And(m.Or(body, inner), m.Or(shared, v)))
+    else:
+        q = (m.Exists if exists else m.ForAll)([v], body)
+    # children are visited last-first: the `pres` get the first let indexes
+    if order == 0:
+        parts = [q, shared] + pres[::-1]          # ... pres, shared, THEN the quantifier
+    elif order == 1:
+        parts = [shared, q] + pres[::-1]          # the quantifier before the shared term
+    else:
+        parts = [m.Not(q), m.Or(shared, c)] + pres[::-1] + [shared]   # shared first of all, q deep and last
+    return m.And(parts)
+
+
+def dag_names_cases(jmax, kmax, shapes, extras, orders=(0, 1)):
+    for j in range(jmax + 1):
+        for k in range(1, kmax + 1):
+            for order in orders:
+                for ex in (False, True):
+                    for shape in shapes:
+                        for extra in extras:
+                            env = Environment()
+                            push_env(env)
+                            yield env, dag_names_formula(env, j, k, order, ex, shape, extra), "dagnames"
+
+
 # directed inputs for the defects DESIGN.md section 6 suspects (and relatives found while modelling);
 # each is ( stable key, description, builder(env) -> formula )
 def _f_int_div(env):
@@ -321,9 +424,10 @@ def has_escape_literal(f):
     return any(n.is_string_constant() and "\\u" in n.constant_value() for n in tocoq.topo([f]))
 
 
-def search_one(chk, env, f, rnd, n_interp, which, stats):
+def search_one(chk, env, f, rnd, n_interp, which, stats, exhaustive=False):
     """Reads the script pySMT wrote for f with the `which` printer; reports violations.
-    Returns the script text."""
+    Returns the script text.  exhaustive: evaluate under ALL interpretations of the free symbols when
+    their sorts are finite and there are at most 256 of them (else n_interp random ones)."""
     dag = which == "dag"
     try:
         text, logic = impl_script(f, dag)
@@ -345,8 +449,12 @@ def search_one(chk, env, f, rnd, n_interp, which, stats):
     stats["well_formed"] = stats.get("well_formed", 0) + 1
     term, sig = sc.assertions[0]
     cache = refeval.EvalCache()
-    for _ in range(n_interp):
-        I = refeval.random_interp(rnd, [f], div0="function")
+    interps = None
+    if exhaustive:
+        interps = refeval.exhaustive_interps([f], limit=256, div0="function")
+    if interps is None:
+        interps = (refeval.random_interp(rnd, [f], div0="function") for _ in range(n_interp))
+    for I in interps:
         try:
             want, _exact = refeval.evaluate_ex(f, I, cache)
             got = smtread.value(term, sig, I)
@@ -434,6 +542,14 @@ def gen_cases(rnd, tier):
             env = Environment()
             push_env(env)
             yield env, fn(env, rnd), k
+    # systematic families (not random): see their definitions
+    for x in sort_shape_cases(3):                                            # 40 chains x 6 carriers = 240
+        yield x
+    for x in dag_names_cases(5, 3, (0, 1), (0,)):                            # 6 x 3 x 2 x 2 x 2 = 144
+        yield x
+    if tier == "thorough":
+        for x in dag_names_cases(6, 5, (0, 1, 2), (0, 1, 2), (0, 1, 2)):     # 7 x 5 x 3 x 2 x 3 x 3 = 1890
+            yield x
 
 
 def run(tier):
@@ -455,7 +571,8 @@ def run(tier):
         # ---- SEARCH: independent reader on the real text, both printers
         texts = {}
         for which in ("tree", "dag"):
-            texts[which] = search_one(chk, env, f, rnd, n_interp, which, stats)
+            texts[which] = search_one(chk, env, f, rnd, 1 if tag == "sortshape" else n_interp, which, stats,
+                                      exhaustive=(tag == "dagnames"))
         # (cvc5 refuses to DECLARE symbols starting with . or @ - reserved for solver use by the standard -
         #  so formulas with such free symbols, which the name generator produces on purpose, are not sent)
         if tier == "thorough" and texts["dag"] and rnd.random() < 0.15 and \
@@ -472,7 +589,12 @@ def run(tier):
                 # cvc5 insists that characters outside printable ASCII are written as \u{..} escapes: that is the
                 # open finding `string-literal-escape` (string constants are written verbatim), not a new one
                 skey = "solver-rejects:%s" % str(tocoq.skey(f))[:160]
-                if all((not v) or ("Extended/unprintable characters" in str(v)) for v in op.values()):
+                ctrl = any(n.is_string_constant() and any(not (32 <= ord(ch) <= 126) for ch in n.constant_value())
+                           for n in tocoq.topo([f]))
+                if all((not v) or ("Extended/unprintable characters" in str(v)) or
+                       (ctrl and ("Illegal string character" in str(v) or "basic_string" in str(v)))
+                       for v in op.values()):
+                    # (tab / newline / non-ASCII inside a literal: cvc5 wants \u{..}; same open finding)
                     skey = "string-literal-escape"
                 chk.violation({"kind": "input", "what": "a solver binary rejects text that smtread.py accepts", "solvers": op,
                                "repro": texts["dag"][:1500], "formula": f.serialize()[:300]},
@@ -573,6 +695,27 @@ def run(tier):
             pop_env()
         except Exception:
             break
+    if (bad or errs) and not chk.violations:
+        # the model and the implementation differ but no generated input violates the property: escalate the two
+        # systematic families (deeper sort nests; more let indexes, binder lists, nested quantifiers, visit orders)
+        # with the semantic oracle only, before giving up with no-failing-input-found
+        chk.note("correspondence differs on %d cases without a violating input: escalated search" % (len(bad) + len(errs)))
+        esc = {}
+        n_esc = 0
+        for fam in (dag_names_cases(8, 5, (0, 1, 2), (0, 1, 2), (0, 1, 2)), sort_shape_cases(4)):
+            for env, f, tag in fam:
+                n_esc += 1
+                for which in ("dag", "tree"):
+                    search_one(chk, env, f, rnd, 2, which, esc, exhaustive=(tag == "dagnames"))
+                try:
+                    pop_env()
+                except Exception:
+                    pass
+                if len(chk.violations) >= 3:
+                    break
+            if chk.violations:
+                break
+        chk.cov["escalated_search"] = dict(esc, cases=n_esc)
     if (not ok or bad or errs) and not chk.violations:
         what = []
         if not ok:
@@ -585,7 +728,10 @@ def run(tier):
                       "random well-typed formulas of all theories with sharing (gen/formulas.py) + directed generators: names needing "
                       "quotes (printable strings minus reserved words / theory symbols / | and \\), negative-rational-huge constants, "
                       "strings with quotes and non-ASCII, nested and string-indexed array values, custom sorts, quantifier nests that "
-                      "re-bind names and use .def_N look-alikes; both printers; distinct = distinct structural keys")
+                      "re-bind names and use .def_N look-alikes; systematic families: SORT-SHAPE (a user sort as the only occurrence at "
+                      "depth 0..3 under Array index / Array element / parametric argument x 6 carriers = 240 scripts) and DAG-NAMES "
+                      "(binders .def_0...def_5 x 1..3 outer lets x visit orders x quantifier x shared-term shape = 144, all "
+                      "interpretations evaluated; 1890 in the thorough tier); both printers; distinct = distinct structural keys")
 
 
 def replay(path):
